@@ -753,7 +753,8 @@ class B_ObjDict(DictV):
 
 def _nd_wrap(r):
     if isinstance(r, list):
-        return NdArr(data=r)
+        from . import npmodel
+        return npmodel.mk(r)
     return r
 
 
